@@ -263,7 +263,7 @@ func init() {
 			{Scenario: "kalive/lat=0s", Budgets: bs(B(2, 0)), Filter: "keepalive", Split: 2},
 			{Scenario: "kalive/lat=250ms", Budgets: bs(B(2, 0)), Filter: "keepalive", Split: 2},
 			{Scenario: "kalive/lat=499ms", Budgets: bs(B(2, 0)), Filter: "keepalive", Split: 2},
-			{Scenario: "kalive/ka=5s,3s/lat=1499ms/idle=100s", Budgets: bs(B(1, 0)), Split: 1},
+			{Scenario: "kalive/ka=5s,3s/lat=1499ms/idle=100s/H=4s/R=4s", Budgets: bs(B(1, 0)), Split: 1},
 			{Scenario: "kadead/N=2", Budgets: bs(B(1, 1)), Split: 2},
 			{Scenario: "kadead/N=2/ka=7s,3s", Budgets: bs(B(0, 1)), Split: 1},
 			{Scenario: "kadead/N=2/kaside=c/k=1", Budgets: bs(B(1, 1)), Split: 2},
